@@ -248,6 +248,7 @@ class World:
         self.K = {}
         self.nbr = {}      # target -> neighbour file
         self.wts = {}      # target -> weight file
+        self.vor = {}      # target -> Voronoi index file (input of indicehis)
         self.nnb = {}      # neighbours per particle in the shared file
         self.A = {}        # (name, target) -> array argument
         self.heavy = False
@@ -395,6 +396,11 @@ def _finish_world(W):
         _weights_file(W.wts[s], W.nbr[s], S.snapshots[0].nparticle, W.rng)
         with open(W.nbr[s]) as f:
             W.add("cnlist", s, read_neighbors(f, S.snapshots[0].nparticle, 30))
+        W.vor[s] = os.path.join(W.dir, f"voroindex{s}.dat")      # a Voronoi-index file as voro++ analysis writes it
+        with open(W.vor[s], "w") as f:
+            f.write("id   voro_index\n")
+            for i in range(min(S.snapshots[0].nparticle, 60)):
+                f.write(f"{i + 1} 0 0 0 " + " ".join(str(int(x)) for x in W.rng.integers(0, 4, size=4)) + " 0 0\n")
         _fill_args(W, s)
     np.set_printoptions(edgeitems=3, threshold=1000, linewidth=75)   # undo what Nnearests set while building inputs
     return W
@@ -548,6 +554,7 @@ def shared_objects(W):
             objs.append((f"arg{s}.{nm}", "", s, lambda Z, arr=arr: dg_array(arr)))
         objs.append((f"file{s}.neighbours", "", s, lambda Z, p=W.nbr[s]: dg_file(p)))
         objs.append((f"file{s}.weights", "", s, lambda Z, p=W.wts[s]: dg_file(p)))
+        objs.append((f"file{s}.voroindex", "", s, lambda Z, p=W.vor[s]: dg_file(p)))
         for fam in FAMS:
             objs.append((f"state{s}.{fam}", fam, s, lambda Z, fam=fam, s=s: Z.state_digest(fam, s)))
     return objs
@@ -828,6 +835,36 @@ def i_write_dump_header(Z, s, v):
     from PyMatterSim.writer.lammps_writer import write_dump_header
     x = Z.one(s)
     return write_dump_header(x.timestep, x.nparticle, x.boxbounds, addson="q6"), None
+
+
+def _fitfun(x, a, b):
+    return a * np.exp(-b * x)
+
+
+def i_fits(Z, s, v):
+    from PyMatterSim.utils.fitting import fits
+    W = Z.W
+    if v == 0:
+        return fits(_fitfun, W.a("fil_t", s), W.a("fil_C", s)), None
+    return fits(_fitfun, W.a("fil_t2_r", s), W.a("fil_C2_r", s), rangea=0.1, rangeb=1.5, p0=[1.0, 1.0], style="log"), None
+
+
+def i_continuousvector(Z, s, v):
+    from PyMatterSim.utils.wavevector import continuousvector
+    return continuousvector(Z.W.dim, 2 + 2 * s, onlypositive=(s == 2)), None
+
+
+def i_triangle_angle(Z, s, v):
+    from PyMatterSim.utils.geometry import triangle_angle
+    g = Z.W.a("sigmas", s)
+    return triangle_angle(g[0, 0], g[0, -1], g[-1, -1]), None
+
+
+def i_indicehis(Z, s, v):
+    from PyMatterSim.neighbors.voropp_neighbors import indicehis
+    out = Z.out(".dat")
+    r = indicehis(Z.W.vor[s], outputfile=out)
+    return (r, _files(out)), None
 
 
 # ---- analysis objects
@@ -1131,7 +1168,8 @@ IMPL = {
     "lines_intersection": i_lines_intersection, "LineWithinSquare": i_line_within_square,
     "cage_relative": i_cage_relative, "s2_integral": i_s2_integral, "grid_gaussian": i_grid_gaussian,
     "choosewavevector": i_choosewavevector, "sph_harm_l": i_sph_harm, "Wignerindex": i_wigner,
-    "write_dump_header": i_write_dump_header,
+    "write_dump_header": i_write_dump_header, "fits": i_fits, "continuousvector": i_continuousvector,
+    "triangle_angle": i_triangle_angle, "indicehis": i_indicehis,
     "gr": c_gr, "gr.getresults": m_gr_getresults, "sq": c_sq, "sq.getresults": m_sq_getresults,
     "boo_3d": c_boo3d, "boo_3d.ql_Ql": m_boo3d_ql, "boo_3d.sij_ql_Ql": m_boo3d_sij, "boo_3d.w_W_cap": m_boo3d_w,
     "boo_3d.spatial_corr": m_boo3d_spatial, "boo_3d.time_corr": m_boo3d_time,
@@ -1551,6 +1589,7 @@ def run(tier, replay=None):
     import PyMatterSim.static.boo, PyMatterSim.static.vector, PyMatterSim.static.nematic, PyMatterSim.static.pairentropy  # noqa
     import PyMatterSim.static.hessians, PyMatterSim.static.geometric, PyMatterSim.static.shape, PyMatterSim.dynamic.dynamics  # noqa
     import PyMatterSim.neighbors.freud_neighbors, PyMatterSim.utils.fft, PyMatterSim.utils.geometry, PyMatterSim.utils.coarse_graining  # noqa
+    import PyMatterSim.utils.fitting, PyMatterSim.neighbors.voropp_neighbors, PyMatterSim.neighbors.calculate_neighbors  # noqa
     chk = Check("C18", tier)
     chk.rule = ("Session.tla is pure by construction; MC_Session (TLC) checks InputsUnchanged, RepeatAgrees, ResultDetermined, "
                 "FileHoldsReturned, StateOnlyByOwner, CursorOnlyByReader, PlannedOnly on every call word (all f,g,f over all "
